@@ -1,0 +1,34 @@
+package http2
+
+// Indexes used by the verification hooks (see verif_on.go / verif_off.go).
+const (
+	verifEvForwarded = iota
+	verifEvTaken
+	verifEvHandlerStart
+	verifEvHandlerReport
+	verifEvHandlerTaken
+	verifEvQueued
+	verifEvDropped
+	verifEvWritten
+	verifEvReadLoopExit
+	verifEvStreamLoopExit
+	verifEvWriteLoopExit
+	verifEvReadIter
+	verifEvInQueued
+	verifEvInTaken
+	verifEvOutQueued
+	verifEvOutTaken
+	verifEvServeReturn
+	verifEvCount
+)
+
+// Pool kinds reported to the pool observer.
+const (
+	verifPoolFrame = iota
+	verifPoolFrameHeader
+	verifPoolHeaderField
+	verifPoolStream
+	verifPoolReqCtx
+	verifPoolClientCtx
+	verifPoolHPACK
+)
